@@ -77,16 +77,16 @@ def select (ad : ActiveDims) (x : List α) : List α :=
     | some is => is.map fun i => x.getD i 0
     | Option.none => []
 
-/-- `full.at[..., active_dims].set(values)` on a zero vector of width `d` (later writes win). -/
-def scatterSet (d : Nat) (is : List Nat) (vals : List α) : List α :=
-  (is.zip vals).foldl (fun acc (p : Nat × α) => acc.set p.1 p.2) (List.replicate d 0)
+/-- `zeros(d).at[..., active_dims].add(values)`: contributions of repeated indices accumulate. -/
+def scatterAdd (d : Nat) (is : List Nat) (vals : List α) : List α :=
+  (is.zip vals).foldl (fun acc (p : Nat × α) => acc.set p.1 (acc.getD p.1 0 + p.2)) (List.replicate d 0)
 
 /-- `expand_to_inactive`. -/
 def expand (ad : ActiveDims) (d : Nat) (vals : List α) : List α :=
   match ad with
   | .none => vals
   | _ => match ad.indices d with
-    | some is => scatterSet d is vals
+    | some is => scatterAdd d is vals
     | Option.none => []
 
 def dot : List α → List α → α
